@@ -6,6 +6,15 @@ cd "$(dirname "$0")" || exit 2
 export GOFLAGS=-mod=mod GOPROXY=off GOSUMDB=off GOTOOLCHAIN=local
 export VERIF_DIR="$(pwd)"
 REPO=${VERIF_REPO:-/repo}
+# race-detector build of the same simulator (tag verifrace): used by C13 as an
+# extra monitor; the ordinary binary starts it for a share of its workers
+build_race() {
+  if [ "$REPO" != "/repo" ]; then
+    (cd sim && go build -race -modfile=go.alt.mod -tags "verif verifrace" -o ../bin/simcheck-race ./cmd/simcheck) || return 2
+  else
+    (cd sim && go build -race -tags "verif verifrace" -o ../bin/simcheck-race ./cmd/simcheck) || return 2
+  fi
+}
 build() {
   mkdir -p bin
   cp "$REPO/go.sum" sim/go.sum 2>/dev/null
@@ -17,11 +26,14 @@ build() {
   fi
 }
 case "$1" in
-  build) build || { echo "HARNESS-TROUBLE: build failed"; exit 2; }; exit 0;;
-  replay) build || { echo "HARNESS-TROUBLE: build failed"; exit 2; }; exec ./bin/simcheck replay "$2";;
+  build) build || { echo "HARNESS-TROUBLE: build failed"; exit 2; }; build_race || { echo "HARNESS-TROUBLE: race build failed"; exit 2; }; exit 0;;
+  replay) build || { echo "HARNESS-TROUBLE: build failed"; exit 2; }
+      if grep -q '"race": true' "$2" 2>/dev/null; then build_race || { echo "HARNESS-TROUBLE: race build failed"; exit 2; }; fi
+      exec ./bin/simcheck replay "$2";;
   selftest) build || { echo "HARNESS-TROUBLE: build failed"; exit 2; }; shift; exec ./bin/simcheck selftest "$@";;
   C19|C20) build || { echo "HARNESS-TROUBLE: build failed"; exit 2; }; exec ./drivers/run_driver.sh "$1" "${2:-quick}";;
   C*) build || { echo "HARNESS-TROUBLE: build failed"; exit 2; }
+      if [ "$1" = "C13" ]; then build_race || { echo "HARNESS-TROUBLE: race build failed"; exit 2; }; fi
       tier=${2:-${VERIF_TIER:-quick}}
       exec ./bin/simcheck run "$1" "$tier";;
   *) echo "usage: run.sh build | <prop> <quick|thorough> | replay <file> | selftest <prop> [n]"; exit 2;;
